@@ -8,9 +8,10 @@ pdfminer/utils.py on every run; `Plane` is the hand model `PdfVerif.Model.Plane`
 Only property theorems live here (helper lemmas: `Lemmas/Plane.lean`).
 -/
 import PdfVerif.Lemmas.Plane
+import PdfVerif.Lemmas.UtilsList
 
 namespace PdfVerif.Props.C20
-open PdfVerif PdfVerif.Gen.Utils PdfVerif.Plane
+open PdfVerif PdfVerif.Gen.Utils PdfVerif.Plane PdfVerif.UtilsList
 
 /-! ## Affine algebra (all rationals) -/
 
@@ -387,7 +388,7 @@ def exA : PObj := ⟨1, -7/10, -7/10, -3/5, -3/5⟩       -- negative fractional
 def exB : PObj := ⟨2, 60, 60, 70, 70⟩
 def exP : Plane.Plane := (Plane.remove (Plane.add (Plane.add (Plane.init (0, 0, 100, 100) 50) exA) exB) exB).1
 
-example : Reach exP [exA] := by
+theorem exP_reach : Reach exP [exA] := by
   have h0 := Reach.init (0, 0, 100, 100) 50 (by decide) (by unfold WfRect; decide +kernel)
   have h1 := Reach.add exA h0 (by simp [Plane.init]) (by unfold WfRect bboxOf exA; decide +kernel)
   have h2 := Reach.add exB h1 (by simp [Plane.init, Plane.add, exA, exB]) (by unfold WfRect bboxOf exB; decide +kernel)
@@ -395,5 +396,319 @@ example : Reach exP [exA] := by
   have : ([] ++ [exA] ++ [exB]).erase exB = [exA] := by decide +kernel
   rw [this] at h3
   exact h3
+
+/-! ## Round 6: the whole public interface of `Plane`, for every history
+
+`remove` of an object that is not in the index (removed before, or never added) raises `KeyError` and
+leaves the index exactly as it was; `__contains__`, `__len__` and `extend` agree with the brute-force
+list; `plane_history` lifts all of it (and, through `Reach`, every theorem above) to arbitrary
+interleavings of `add` / `extend` / `remove` (live or absent). -/
+
+/-- **Removing an absent object** is `KeyError` and changes NOTHING (the grid edits that `remove`
+performs before `set.remove` raises find nothing to delete). -/
+theorem plane_remove_absent {p L} (h : Reach p L) (o : PObj) (ho : o.id ∉ p.objs) :
+    Plane.remove p o = (p, false) := by
+  have inv := inv_of_reach h
+  have hL : o ∉ L := by
+    rw [← inv.live]
+    simp only [Plane.iter, List.mem_filter, decide_eq_true_eq, not_and]
+    exact fun _ => ho
+  have hg : ∀ k, (k, o) ∉ p.grid := by
+    intro k hk
+    have := inv.grid k o
+    simp only [hL, false_and, if_false] at this
+    have hpos := List.count_pos_iff.mpr hk
+    omega
+  have hb : o ∉ p.big := by
+    intro hk
+    have := inv.big o
+    simp only [hL, false_and, if_false] at this
+    have hpos := List.count_pos_iff.mpr hk
+    omega
+  unfold Plane.remove
+  simp only [ho, if_false]
+  cases hc : cells? p (bboxOf o) with
+  | none => simp only [List.erase_of_not_mem hb]
+  | some ks => simp only [foldl_erase_absent ks o p.grid hg]
+
+/-- `remove` succeeds exactly on the objects `__contains__` reports. -/
+theorem plane_remove_ok_iff (p : Plane.Plane) (o : PObj) :
+    (Plane.remove p o).2 = true ↔ Plane.contains p o = true := by
+  unfold Plane.remove Plane.contains
+  by_cases h : o.id ∈ p.objs <;> simp [h]
+
+/-- **`__contains__`** = membership (by identity) in the brute-force list of live objects. -/
+theorem plane_contains {p L} (h : Reach p L) (o : PObj) :
+    Plane.contains p o = true ↔ ∃ o' ∈ L, o'.id = o.id := by
+  have inv := inv_of_reach h
+  simp only [Plane.contains, decide_eq_true_eq]
+  constructor
+  · intro ho
+    obtain ⟨o', ho', hid⟩ := inv.objs_sub _ ho
+    refine ⟨o', ?_, hid⟩
+    rw [← inv.live]
+    simp only [Plane.iter, List.mem_filter, decide_eq_true_eq]
+    exact ⟨ho', hid ▸ ho⟩
+  · rintro ⟨o', ho', hid⟩
+    rw [← inv.live] at ho'
+    simp only [Plane.iter, List.mem_filter, decide_eq_true_eq] at ho'
+    exact hid ▸ ho'.2
+
+/-- For an object that was handed to the index at some point (so that its id identifies it),
+`obj in plane` is literally `obj ∈ L`. -/
+theorem plane_contains_added {p L} (h : Reach p L) (o : PObj) (ho : o ∈ p.seq) :
+    Plane.contains p o = true ↔ o ∈ L := by
+  have inv := inv_of_reach h
+  rw [plane_contains h o]
+  constructor
+  · rintro ⟨o', ho', hid⟩
+    have hs : o' ∈ p.seq := by
+      rw [← inv.live] at ho'
+      exact (List.mem_filter.mp ho').1
+    exact (eq_of_id_eq inv.ids hs ho hid) ▸ ho'
+  · exact fun hL => ⟨o, hL, rfl⟩
+
+/-- **`__len__`** = number of live objects. -/
+theorem plane_len {p L} (h : Reach p L) : Plane.len p = L.length := by
+  have inv := inv_of_reach h
+  have hnd : ((Plane.iter p).map (fun o => o.id)).Nodup := by
+    rw [List.Nodup, List.pairwise_map]
+    exact inv.ids.filter _
+  have hmem : ∀ i, i ∈ p.objs ↔ i ∈ (Plane.iter p).map (fun o => o.id) := by
+    intro i
+    simp only [List.mem_map, Plane.iter, List.mem_filter, decide_eq_true_eq]
+    constructor
+    · intro hi
+      obtain ⟨o, ho, hid⟩ := inv.objs_sub i hi
+      exact ⟨o, ⟨ho, hid ▸ hi⟩, hid⟩
+    · rintro ⟨o, ⟨_, ho⟩, rfl⟩
+      exact ho
+  have := length_eq_of_nodup_of_mem_iff inv.objs_nodup hnd hmem
+  rw [List.length_map, inv.live] at this
+  exact this
+
+/-- **`extend`** = appending the new objects, in order, to the brute-force list. -/
+theorem plane_extend {p L} (h : Reach p L) (os : List PObj)
+    (hfresh : ∀ o ∈ os, ∀ o' ∈ p.seq, o'.id ≠ o.id)
+    (hd : os.Pairwise (fun a b => a.id ≠ b.id))
+    (hwf : ∀ o ∈ os, WfRect (bboxOf o)) :
+    Reach (Plane.extend p os) (L ++ os) := by
+  induction os generalizing p L with
+  | nil => simpa [extend_nil] using h
+  | cons o os ih =>
+    rw [extend_cons]
+    rw [List.pairwise_cons] at hd
+    have h1 := Reach.add o h (hfresh o (List.mem_cons_self ..)) (hwf o (List.mem_cons_self ..))
+    have := ih h1 (by
+        intro o2 ho2 o' ho'
+        rw [add_seq, List.mem_append, List.mem_singleton] at ho'
+        rcases ho' with ho' | rfl
+        · exact hfresh o2 (List.mem_cons_of_mem _ ho2) o' ho'
+        · exact hd.1 o2 ho2) hd.2 (fun o2 ho2 => hwf o2 (List.mem_cons_of_mem _ ho2))
+    simpa [List.append_assoc] using this
+
+/-- One state-changing call of the public interface. -/
+inductive Op
+  | add (o : PObj)
+  | extend (os : List PObj)
+  | remove (o : PObj)
+
+/-- What the index does … -/
+def Op.run (p : Plane.Plane) : Op → Plane.Plane
+  | .add o => Plane.add p o
+  | .extend os => Plane.extend p os
+  | .remove o => (Plane.remove p o).1
+
+/-- … and what the brute-force list does. -/
+def Op.spec (L : List PObj) : Op → List PObj
+  | .add o => L ++ [o]
+  | .extend os => L ++ os
+  | .remove o => L.erase o
+
+/-- The domain: inserted objects are new and well formed; a removal targets a live object OR an object
+that is not in the index at all (removed before / never added). -/
+def Op.Ok (p : Plane.Plane) : Op → Prop
+  | .add o => (∀ o' ∈ p.seq, o'.id ≠ o.id) ∧ WfRect (bboxOf o)
+  | .extend os => (∀ o ∈ os, ∀ o' ∈ p.seq, o'.id ≠ o.id) ∧ os.Pairwise (fun a b => a.id ≠ b.id) ∧
+      ∀ o ∈ os, WfRect (bboxOf o)
+  | .remove o => o ∈ Plane.iter p ∨ o.id ∉ p.objs
+
+def HistOk (p : Plane.Plane) : List Op → Prop
+  | [] => True
+  | op :: rest => op.Ok p ∧ HistOk (op.run p) rest
+
+/-- **Arbitrary operation histories.**  Whatever interleaving of `add`, `extend`, `remove` of live objects and
+`remove` of absent objects is applied, the index stays tied to the brute-force list (`Reach`), hence
+`find` / iteration / `in` / `len` keep agreeing with it (`plane_history_bruteforce`). -/
+theorem plane_history {p L} (h : Reach p L) (ops : List Op) (hok : HistOk p ops) :
+    Reach (ops.foldl Op.run p) (ops.foldl Op.spec L) := by
+  induction ops generalizing p L with
+  | nil => exact h
+  | cons op ops ih =>
+    obtain ⟨h1, h2⟩ := hok
+    simp only [List.foldl_cons]
+    refine ih ?_ h2
+    cases op with
+    | add o => exact Reach.add o h h1.1 h1.2
+    | extend os => exact plane_extend h os h1.1 h1.2.1 h1.2.2
+    | remove o =>
+      rcases h1 with h1 | h1
+      · exact Reach.remove o h (by rw [← plane_iter h]; exact h1)
+      · have hL : o ∉ L := by
+          rw [← plane_iter h]
+          simp only [Plane.iter, List.mem_filter, decide_eq_true_eq, not_and]
+          exact fun _ => h1
+        simp only [Op.run, Op.spec, plane_remove_absent h o h1, List.erase_of_not_mem hL]
+        exact h
+
+/-- Everything observable after an arbitrary history on a fresh index equals brute force on the list. -/
+theorem plane_history_bruteforce (bbox : Rect) (gs : Int) (hgs : 0 < gs) (hb : WfRect bbox)
+    (ops : List Op) (hok : HistOk (Plane.init bbox gs) ops) (q : Rect) (hq : WfRect q) :
+    let p := ops.foldl Op.run (Plane.init bbox gs)
+    let L := ops.foldl Op.spec []
+    Plane.find p q = L.filter (fun o => overlaps o q) ∧ Plane.iter p = L ∧ Plane.len p = L.length ∧
+      ∀ o, Plane.contains p o = true ↔ ∃ o' ∈ L, o'.id = o.id := by
+  intro p L
+  have h : Reach p L := plane_history (Reach.init bbox gs hgs hb) ops hok
+  refine ⟨?_, plane_iter h, plane_len h, plane_contains h⟩
+  rw [plane_find_order h q hq, Plane.findSpec, plane_iter h]
+
+/-! ### Non-vacuity (round 6): a history with an `extend`, a live removal, an absent removal. -/
+
+def exC : PObj := ⟨3, 10, 10, 10, 20⟩        -- zero-width object
+def exOps : List Op := [.extend [exA, exB], .remove exB, .remove exB, .add exC, .remove ⟨9, 0, 0, 1, 1⟩]
+
+example : HistOk (Plane.init (0, 0, 100, 100) 50) exOps := by
+  simp only [exOps, HistOk, Op.Ok, Op.run, and_true]
+  refine ⟨⟨?_, ?_, ?_⟩, ?_, ?_, ⟨?_, ?_⟩, ?_⟩
+  · simp [Plane.init]
+  · simp [exA, exB]
+  · intro o ho
+    simp only [List.mem_cons, List.not_mem_nil, or_false] at ho
+    rcases ho with rfl | rfl <;> (unfold WfRect bboxOf; decide +kernel)
+  · left; decide +kernel
+  · right; decide +kernel
+  · decide +kernel
+  · unfold WfRect bboxOf; decide +kernel
+  · right; decide +kernel
+
+example : exOps.foldl Op.spec [] = [exA, exC] := by decide +kernel
+example : Plane.remove exP exB = (exP, false) := plane_remove_absent exP_reach exB (by decide +kernel)
+
+/-! ## Round 6: list helpers of utils.py (`get_bound`, `uniq`, `fsplit`; regenerated definitions) -/
+
+/-- `get_bound` of no points is the initial limit. -/
+theorem get_bound_nil :
+    get_bound [] = (((INF : Int) : Rat), ((INF : Int) : Rat), -((INF : Int) : Rat), -((INF : Int) : Rat)) := rfl
+
+/-- `get_bound` covers every point - for ALL point lists … -/
+theorem get_bound_contains (pts : List Point) (p : Point) (hp : p ∈ pts) :
+    (get_bound pts).1 ≤ p.1 ∧ p.1 ≤ (get_bound pts).2.2.1 ∧
+    (get_bound pts).2.1 ≤ p.2 ∧ p.2 ≤ (get_bound pts).2.2.2 := by
+  unfold get_bound
+  rw [foldl_get_bound_step]
+  exact ⟨(foldl_min_le (fun p : Point => p.1) pts _).2 p hp, (foldl_max_le (fun p : Point => p.1) pts _).2 p hp,
+    (foldl_min_le (fun p : Point => p.2) pts _).2 p hp, (foldl_max_le (fun p : Point => p.2) pts _).2 p hp⟩
+
+/-- … each bound is either attained by a point or still the initial limit `±INF`, and never beyond it … -/
+theorem get_bound_attained_or_limit (pts : List Point) :
+    ((get_bound pts).1 = (INF : Int) ∨ ∃ p ∈ pts, p.1 = (get_bound pts).1) ∧
+    ((get_bound pts).2.1 = (INF : Int) ∨ ∃ p ∈ pts, p.2 = (get_bound pts).2.1) ∧
+    ((get_bound pts).2.2.1 = -((INF : Int) : Rat) ∨ ∃ p ∈ pts, p.1 = (get_bound pts).2.2.1) ∧
+    ((get_bound pts).2.2.2 = -((INF : Int) : Rat) ∨ ∃ p ∈ pts, p.2 = (get_bound pts).2.2.2) := by
+  unfold get_bound
+  rw [foldl_get_bound_step]
+  exact ⟨foldl_min_mem (fun p : Point => p.1) pts _, foldl_min_mem (fun p : Point => p.2) pts _,
+    foldl_max_mem (fun p : Point => p.1) pts _, foldl_max_mem (fun p : Point => p.2) pts _⟩
+
+/-- … so for a non-empty list of points inside `[-INF, INF]²` it is the TIGHT hull ("minimal rectangle that
+covers all the points"): each of the four bounds is attained. -/
+theorem get_bound_tight (pts : List Point) (hne : pts ≠ [])
+    (hin : ∀ p ∈ pts, -((INF : Int) : Rat) ≤ p.1 ∧ p.1 ≤ (INF : Int) ∧ -((INF : Int) : Rat) ≤ p.2 ∧ p.2 ≤ (INF : Int)) :
+    (∃ p ∈ pts, p.1 = (get_bound pts).1) ∧ (∃ p ∈ pts, p.2 = (get_bound pts).2.1) ∧
+    (∃ p ∈ pts, p.1 = (get_bound pts).2.2.1) ∧ (∃ p ∈ pts, p.2 = (get_bound pts).2.2.2) := by
+  obtain ⟨p0, hp0⟩ := List.exists_mem_of_ne_nil pts hne
+  have hc := get_bound_contains pts p0 hp0
+  have hb := hin p0 hp0
+  obtain ⟨h1, h2, h3, h4⟩ := get_bound_attained_or_limit pts
+  refine ⟨?_, ?_, ?_, ?_⟩
+  · rcases h1 with h | h
+    · exact ⟨p0, hp0, by rw [h] at hc ⊢; exact Rat.le_antisymm hb.2.1 hc.1⟩
+    · exact h
+  · rcases h2 with h | h
+    · exact ⟨p0, hp0, by rw [h] at hc ⊢; exact Rat.le_antisymm hb.2.2.2 hc.2.2.1⟩
+    · exact h
+  · rcases h3 with h | h
+    · exact ⟨p0, hp0, by rw [h] at hc ⊢; exact Rat.le_antisymm hc.2.1 hb.1⟩
+    · exact h
+  · rcases h4 with h | h
+    · exact ⟨p0, hp0, by rw [h] at hc ⊢; exact Rat.le_antisymm hc.2.2.2 hb.2.2.1⟩
+    · exact h
+
+/-- The box of a transformed rectangle IS `get_bound` of the four transformed corners (whenever those lie
+inside `get_bound`'s limit): the two "hull" helpers of utils.py agree. -/
+theorem rect_eq_get_bound (m : Matrix) (r : Rect)
+    (hin : ∀ c ∈ corners r, -((INF : Int) : Rat) ≤ (apply_matrix_pt m c).1 ∧ (apply_matrix_pt m c).1 ≤ (INF : Int) ∧
+      -((INF : Int) : Rat) ≤ (apply_matrix_pt m c).2 ∧ (apply_matrix_pt m c).2 ≤ (INF : Int)) :
+    apply_matrix_rect m r = get_bound ((corners r).map (apply_matrix_pt m)) := by
+  obtain ⟨a1, a2, a3, a4, a5, a6⟩ := m
+  obtain ⟨x0, y0, x1, y1⟩ := r
+  simp only [corners, List.mem_cons, List.not_mem_nil, or_false, forall_eq_or_imp, forall_eq] at hin
+  simp only [corners, List.map, get_bound, List.foldl, get_bound_step, apply_matrix_rect, apply_matrix_pt] at hin ⊢
+  obtain ⟨⟨h1, h2, h3, h4⟩, ⟨h5, h6, h7, h8⟩, ⟨h9, h10, h11, h12⟩, ⟨h13, h14, h15, h16⟩⟩ := hin
+  refine Prod.ext ?_ (Prod.ext ?_ (Prod.ext ?_ ?_)) <;> simp only [] <;> grind
+
+/-- **`uniq`** yields exactly the first occurrences, in order (`firstOcc` is the specification) … -/
+theorem uniq_spec (l : List Int) : uniq l = firstOcc l := by
+  unfold uniq
+  rw [uniqGo_eq]
+  simp
+
+/-- … i.e. the same elements, each once, as a sub-sequence of the input. -/
+theorem uniq_props (l : List Int) :
+    (∀ x, x ∈ uniq l ↔ x ∈ l) ∧ (uniq l).Nodup ∧ (uniq l).Sublist l := by
+  rw [uniq_spec]
+  exact ⟨fun _ => mem_firstOcc, nodup_firstOcc l, sublist_firstOcc l⟩
+
+/-- `uniq` is idempotent. -/
+theorem uniq_idem (l : List Int) : uniq (uniq l) = uniq l := by
+  rw [uniq_spec, uniq_spec]
+  have : ∀ l : List Int, l.Nodup → firstOcc l = l := by
+    intro l
+    induction l with
+    | nil => intro _; rfl
+    | cons x rest ih =>
+      intro h
+      rw [List.nodup_cons] at h
+      simp only [firstOcc, ih h.2, List.cons.injEq, true_and]
+      rw [List.filter_eq_self]
+      intro y hy
+      simp only [ne_eq, decide_eq_true_eq]
+      rintro rfl
+      exact h.1 hy
+  exact this _ (nodup_firstOcc l)
+
+/-- **`fsplit`** = (the elements satisfying the predicate, the others), both in input order. -/
+theorem fsplit_spec (pred : Int → Bool) (l : List Int) :
+    fsplit pred l = (l.filter pred, l.filter (fun x => !pred x)) := by
+  unfold fsplit
+  rw [fsplitGo_eq]
+  simp
+
+/-- Nothing is lost or invented by `fsplit`. -/
+theorem fsplit_length (pred : Int → Bool) (l : List Int) :
+    (fsplit pred l).1.length + (fsplit pred l).2.length = l.length := by
+  simp only [fsplit_spec]
+  induction l with
+  | nil => rfl
+  | cons x rest ih =>
+    by_cases hx : pred x = true <;> simp only [List.filter_cons, hx, if_true, Bool.not_true, Bool.not_false,
+      Bool.false_eq_true, if_false, List.length_cons] <;> omega
+
+example : get_bound [((3 : Rat), (-7 : Rat) / 2), (-1, 4), (3, 4)] = (-1, (-7 : Rat) / 2, 3, 4) := by decide +kernel
+example : uniq [3, 1, 3, 2, 1] = [3, 1, 2] := by decide +kernel
+example : fsplit (fun x => decide (x < 2)) [3, 1, 0, 2] = ([1, 0], [3, 2]) := by decide +kernel
+example : apply_matrix_rect (0, 1, -1, 0, 5, 0) (0, 0, 2, 1) =
+    get_bound ((corners (0, 0, 2, 1)).map (apply_matrix_pt (0, 1, -1, 0, 5, 0))) := by decide +kernel
 
 end PdfVerif.Props.C20
